@@ -130,6 +130,46 @@ def check_temporal_offset(ctx):
             f"to_temporal_offset must return Fraction(self.to_frames(), self._frame_rate) exactly; found `{short(rets[0].value) if rets else None}`")
 
 
+def check_single_rounding(ctx):
+  """DEP-round: ClockTime.from_seconds derives hours, minutes, seconds and milliseconds from ONE
+  rounded quantity (either `round(seconds, 3)` or `round(seconds * 1000)`), so that a value that
+  rounds up to the next second / minute / hour carries into the higher fields."""
+  ix = ctx.ix
+  f = ix.func("ttconv.time_code:ClockTime.from_seconds")
+  ctx.unit(f.module)
+  p = f.params[0]
+  rounded = None
+  for st in f.node.body:
+    if isinstance(st, ast.Assign) and isinstance(st.targets[0], ast.Name) and isinstance(st.value, ast.Call) and unparse(st.value.func) == "round":
+      a = st.value.args
+      t = unparse(st.value).replace(" ", "")
+      if t in (f"round({p},3)", f"round({p}*1000)", f"round(1000*{p})"):
+        rounded = (st.targets[0].id, f.node.body.index(st))
+        break
+  ok = rounded is not None
+  why = "no up-front `round(seconds, 3)` / `round(seconds * 1000)`"
+  if ok:
+    name, idx = rounded
+    # after that statement, the raw parameter (if the rounded value has another name) is not read, and
+    # every field of the returned ClockTime depends on the rounded value
+    later = f.node.body[idx + 1:]
+    raw_reads = [n for st in later for n in ast.walk(st) if isinstance(n, ast.Name) and n.id == p and name != p]
+    ret = [r for r in own_nodes(f.node) if isinstance(r, ast.Return) and isinstance(r.value, ast.Call) and unparse(r.value.func) == "ClockTime"]
+    deps = {}
+    for st in later:
+      if isinstance(st, ast.Assign) and isinstance(st.targets[0], ast.Name):
+        src = set()
+        for nm in ast.walk(st.value):
+          if isinstance(nm, ast.Name):
+            src |= deps.get(nm.id, {nm.id})
+        deps[st.targets[0].id] = src
+    fields_ok = bool(ret) and all(name in deps.get(unparse(a), {unparse(a)}) for a in ret[0].value.args)
+    ok = not raw_reads and fields_ok
+    why = f"all fields derive from `{name}`" if ok else f"raw parameter read after rounding: {bool(raw_reads)}; fields derive from the rounded value: {fields_ok}"
+  ctx.check(ok, "DEP-round", f"{f.qualname}|all fields derive from one rounded value", ctx.where(f.module, f.node), why,
+            f"ClockTime.from_seconds: {why}: a value within 0.5 ms below a second / minute / hour boundary yields an out-of-range field (e.g. 00:00:60.000)")
+
+
 def run(ctx):
   ix = ctx.ix
   fs = common.funcs(ctx, ["ttconv.time_code"]) + [ix.func("ttconv.imsc.attributes:to_time_format")]
@@ -138,4 +178,5 @@ def run(ctx):
   n = exa.check_exactness(ctx, fs, rule="EXA", exempt=common.EXA_EXEMPT, trunc_scope=common.time_trunc_scope(ctx))
   ctx.floor("EXA", "truncation / time sinks on the seconds->frames paths", n, 12)
   check_temporal_offset(ctx)
+  check_single_rounding(ctx)
   check_fmt(ctx)
